@@ -334,7 +334,7 @@ PLAN["C09"] = {
     "verus_units": ["kernels"],
     "kani_units": ["spec_ops.rs", "c09_text.rs"],
     "kani_filters": {"quick": ["c09q_"], "thorough": ["c09t_"]},
-    "kani_scope": {r"hex_str_size": "complete(all n: loop-free function contract)", r"wrap_|display_": "complete(this n: wrapper text around the callee's text; callee stubbed by its marker contract)", r"print_(hex|bin)_n(\d)": "bounded(one-word table of this n; all contents)",
+    "kani_scope": {r"hex_str_size": "complete(all n: loop-free function contract)", r"wrap_|display_": "complete(this n: wrapper text around the callee's text; callee stubbed by its marker contract)", r"prefix_": "complete(this n: the text starts with Lut<n in decimal>( whatever produces the digits; early-stopping sink)", r"print_(hex|bin)_n(\d)": "bounded(one-word table of this n; all contents)",
                    r"parse_non_ascii": "bounded(six concrete non-ASCII strings)", r"parse_n7": "bounded(n = 7: every 32-character ASCII string)",
                    r"parse_n(\d)_len(\d+)": "bounded(this n and this string length: every ASCII string)"},
     "harness_timeout": {"quick": 900, "thorough": 3600},
